@@ -1301,6 +1301,8 @@ static void CodeALIGN(Word Index) {
         if (OK) {
             if (mFirstPassUnknown(Flags)) {
                 WrError(ErrNum_FirstPassCalc);
+            } else if (AlignValue < 1) {
+                WrStrErrorPos(ErrNum_UnderRange, &ArgStr[1]);
             } else {
                 NewPC = EProgCounter() + AlignValue - 1;
                 NewPC -= NewPC % AlignValue;
